@@ -603,12 +603,66 @@ class Discharger:
         return ("D-POISON", why) if ok else None
 
 
+def recursion_cycles(facts, members):
+    """call cycles among the given local functions -> list of cycles (each a sorted list of function ids)"""
+    G = {}
+    for k in members:
+        g = facts.fns.get(k)
+        if g is None:
+            continue
+        out = {call_name(t) for bb, t in g.calls() if call_name(t) in members}
+        out |= {c for c in members if c.startswith(k + "::{closure")}
+        G[k] = out
+    idx, low, stack, on, res, n = {}, {}, [], set(), [], [0]
+    for root in sorted(G):
+        if root in idx:
+            continue
+        work = [(root, iter(sorted(G[root])))]
+        idx[root] = low[root] = n[0]; n[0] += 1; stack.append(root); on.add(root)
+        while work:
+            v, it = work[-1]
+            adv = False
+            for w in it:
+                if w not in G:
+                    continue
+                if w not in idx:
+                    idx[w] = low[w] = n[0]; n[0] += 1; stack.append(w); on.add(w)
+                    work.append((w, iter(sorted(G[w]))))
+                    adv = True
+                    break
+                elif w in on:
+                    low[v] = min(low[v], idx[w])
+            if adv:
+                continue
+            work.pop()
+            if work:
+                low[work[-1][0]] = min(low[work[-1][0]], low[v])
+            if low[v] == idx[v]:
+                comp = []
+                while True:
+                    w = stack.pop(); on.discard(w); comp.append(w)
+                    if w == v:
+                        break
+                if len(comp) > 1 or v in G[v]:
+                    res.append(sorted(comp))
+    return res
+
+
 def run(ctx):
     facts = ctx.facts
     roles.bind(facts)
     reg = region.client_region(facts)
     ctx.floor("client-reachable local functions", len(reg), 60)
     fns = {k: facts.fns[k] for k in reg}
+
+    # ---- C14.R no recursion in client-reachable code: the depth of the stack must not depend on what (or how much) a client sends;
+    # a function that calls itself once per rejected request / header / chunk overflows its thread's stack, which aborts the process
+    cycles = recursion_cycles(facts, set(fns))
+    for c in cycles:
+        g0 = facts.fns[c[0]]
+        ctx.ob("C14.R", "recursion|%s" % "+".join(c), "no function reachable from client input calls itself (directly or through others)", False, "%s:%d" % (g0.file, g0.line), " -> ".join(short(x) for x in c + [c[0]]))
+    ctx.ob("C14.R", "no-recursion", "the client-reachable functions of the crate form no call cycle (resolved calls, closures counted with the function they are written in)", not cycles, "crate", nontrivial=True)
+    ctx.counts["C14.R functions in the call graph"] = len(fns)
 
     # ---- C14.A allocation bound
     T = taint.Taint(facts, fns)
